@@ -171,6 +171,15 @@ func (c *census) hash() uint64 {
 		h.Bytes(g[:cap(g)])
 	}
 	hashRaw(&h, unsafe.Pointer(&c.sh.Palette), unsafe.Sizeof(c.sh.Palette))
+	for i := range c.sh.Stops {
+		st := &c.sh.Stops[i]
+		h.F32(st.Offset)
+		r, g, b, a := st.Color.RGBA()
+		h.U32(r)
+		h.U32(g)
+		h.U32(b)
+		h.U32(a)
+	}
 	h.U32(uint32(len(c.sh.Options)))
 	// the option list up to its capacity (a decoder appending to the list it was handed
 	// writes into the caller's array)
